@@ -54,7 +54,8 @@ Definition bounds_of (name : string) : option bounds :=
 Definition bounds_entries (name : string) (r : bounds) : list entry :=
   [ ("cron." ++ name ++ ".min", eqv (TZ (b_min r)));
     ("cron." ++ name ++ ".max", eqv (TZ (b_max r)));
-    ("cron." ++ name ++ ".names", same_set (tpairs tbytes TZ (b_names r))) ].
+    ("cron." ++ name ++ ".names[]", in_list (tpairs tbytes TZ (b_names r)));
+    ("cron." ++ name ++ ".names[#]", eqv (tnat (List.length (b_names r)))) ].
 
 (* one field of a descriptor's schedule: ("min", X) = 1 << X.min, ("all", X) = all(X) *)
 Definition field_bits (f : tv) : option N :=
@@ -130,21 +131,29 @@ Definition every_prefix_ok (p : string) : bool :=
   | _ => false
   end.
 
+Definition parse_options : list tv :=
+  tpairs TS TZ
+    [ ("Second", 2 ^ o_second); ("SecondOptional", 2 ^ o_second_opt); ("Minute", 2 ^ o_minute);
+      ("Hour", 2 ^ o_hour); ("Dom", 2 ^ o_dom); ("Month", 2 ^ o_month); ("Dow", 2 ^ o_dow);
+      ("DowOptional", 2 ^ o_dow_opt); ("Descriptor", 2 ^ o_descriptor) ].
+
+(* the descriptors the model's parse_descriptor knows (its "unrecognized descriptor" answer for
+   anything else is part of the behavioural check) *)
+Definition descriptor_count : nat := 7.
+
 Definition table : list entry :=
   (bounds_entries "seconds" seconds ++ bounds_entries "minutes" minutes
   ++ bounds_entries "hours" hours ++ bounds_entries "dom" dom
   ++ bounds_entries "months" months ++ bounds_entries "dow" dow
   ++ [ ("cron.starBit", eqv (tN star_bit));
        ("cron.Next.yearLimit", eqv (TZ year_span));
-       ("cron.ParseOption",
-        eqv (TL (tpairs TS TZ
-          [ ("Second", 2 ^ o_second); ("SecondOptional", 2 ^ o_second_opt); ("Minute", 2 ^ o_minute);
-            ("Hour", 2 ^ o_hour); ("Dom", 2 ^ o_dom); ("Month", 2 ^ o_month); ("Dow", 2 ^ o_dow);
-            ("DowOptional", 2 ^ o_dow_opt); ("Descriptor", 2 ^ o_descriptor) ])));
+       ("cron.ParseOption[]", in_list parse_options);
+       ("cron.ParseOption[#]", eqv (tnat (List.length parse_options)));
        ("cron.places+defaults", places_defaults_ok);
        ("cron.standardParser.options", eqv (TZ standard_opts));
        ("cron.normalizeFields.optional-defaults", optional_defaults_ok);
-       ("cron.parseDescriptor", each_pair 7 descriptor_ok);
+       ("cron.parseDescriptor[]", on_pair descriptor_ok);
+       ("cron.parseDescriptor[#]", eqv (tnat descriptor_count));
        ("cron.parseDescriptor.every", on_S every_prefix_ok);
        ("cron.Every.minimum", eqv (TZ ns_per_s));
        ("cron.Every.minimum-assigned", eqv (TZ ns_per_s));
@@ -156,6 +165,11 @@ Definition run_cases := run_tab table.
 Example table_accepts_today :
   run_cases
     [ (0, CTab "cron.dow.max" (TZ 6)); (1, CTab "cron.Next.yearLimit" (TZ 5));
+      (5, CTab "cron.dow.names[sun]" (TP (TS "sun") (TZ 0))); (6, CTab "cron.dow.names[#]" (TZ 7));
+      (7, CTab "cron.parseDescriptor[@weekly]"
+             (TP (TS "@weekly") (TL [TP (TS "min") (TS "seconds"); TP (TS "min") (TS "minutes");
+                                     TP (TS "min") (TS "hours"); TP (TS "all") (TS "dom");
+                                     TP (TS "all") (TS "months"); TP (TS "min") (TS "dow")])));
       (2, CTab "cron.parseDescriptor.every" (TS "@every "));
       (3, CTab "cron.normalizeFields.optional-defaults" (TL [TS "*"; TS "0"]));
       (4, CTab "cron.dow.max" (TZ 7)) ] = [(4, 1)].
